@@ -154,9 +154,19 @@ func freshBlob(r *Rng, n int, compressible bool) *blob {
 		d = r.Bytes(n)
 	}
 	if n == 0 {
-		d = []byte{}
+		return regBlob([]byte{})
 	}
-	return regBlob(d)
+	// never a content used before in this run (one-byte blobs run out after 256)
+	for try := 0; try < 2000; try++ {
+		if _, used := byHash[sha(d)]; !used {
+			return regBlob(d)
+		}
+		if try > 600 {
+			d = append(d, 0)
+		}
+		copy(d, r.Bytes(len(d)))
+	}
+	panic("no fresh blob")
 }
 
 const hexd = "0123456789abcdef"
